@@ -978,7 +978,10 @@ func (c *compiler) evalCallExpression(node *ast.CallExpression) (interface{}, er
 		}
 	}
 
-	res := rv.Call(args)
+	res, err := safeCall(rv, args)
+	if err != nil {
+		return nil, fmt.Errorf("could not call %s function: %w", node.Function, err)
+	}
 	if len(res) > 0 {
 		if e, ok := res[len(res)-1].Interface().(error); ok {
 			return nil, fmt.Errorf("could not call %s function: %w", node.Function, e)
@@ -1004,6 +1007,22 @@ func (c *compiler) evalCallExpression(node *ast.CallExpression) (interface{}, er
 	}
 
 	return nil, nil
+}
+
+// safeCall calls fn and turns a panic of the called function (or of the call
+// itself: a method promoted through a nil embedded pointer, a value method
+// reached through a nil pointer) into an error, as text/template does.
+func safeCall(fn reflect.Value, args []reflect.Value) (res []reflect.Value, err error) {
+	defer func() {
+		if r := recover(); r != nil {
+			if e, ok := r.(error); ok {
+				err = e
+			} else {
+				err = fmt.Errorf("%v", r)
+			}
+		}
+	}()
+	return fn.Call(args), nil
 }
 
 func (c *compiler) evalForExpression(node *ast.ForExpression) (interface{}, error) {
